@@ -5,6 +5,8 @@
   tools/anchors.py show [repo]      per property: functions whose fingerprint differs from the record
 """
 import sys, os, json, subprocess
+if sys.executable != "/venv/bin/python" and os.path.exists("/venv/bin/python"):
+    os.execv("/venv/bin/python", ["/venv/bin/python"] + sys.argv)      # the interpreter the checks run under
 sys.path.insert(0, os.path.dirname(os.path.dirname(os.path.abspath(__file__))))
 from vlib import anchors
 
@@ -13,7 +15,7 @@ repo = sys.argv[2] if len(sys.argv) > 2 else os.environ.get("VERIF_REPO", "/repo
 if cmd == "update":
     head = subprocess.run(["git", "-C", repo, "rev-parse", "HEAD"], capture_output=True, text=True).stdout.strip()
     snap = anchors.snapshot(repo)
-    json.dump({"repo_head": head, "files": snap}, open(anchors.ANCHORS, "w"), indent=0, sort_keys=True)
+    json.dump({"repo_head": head, "python": "%d.%d" % sys.version_info[:2], "files": snap}, open(anchors.ANCHORS, "w"), indent=0, sort_keys=True)
     print("recorded", sum(len(v) for v in snap.values()), "anchors in", len(snap), "files at", head[:7])
 else:
     for i in range(1, 21):
